@@ -261,10 +261,9 @@ def eos_padded_wide_batch(draw, tier, max_n=3):
     A = draw(st.integers(1, 3))
     eos = draw(st.sampled_from([A, 0, -1]))
     widths = [257, 300, 530] + ([1025, 2049] if big else [])
-    R = draw(st.sampled_from(widths + [8, 12]))
-    H = draw(st.sampled_from(widths + [8, 12]))
-    if R < 200 and H < 200:
-        R = 300
+    # one side wide, the other short (the cost of the library's row-by-row programme is R * H steps)
+    wide, short = draw(st.sampled_from(widths)), draw(st.sampled_from([8, 12, 20]))
+    R, H = (wide, short) if draw(st.booleans()) else (short, wide)
     body = st.lists(st.integers(0, A - 1).filter(lambda t: t != eos) if A > 1 or eos != 0 else st.just(A), max_size=6)
     refs = [(draw(body) + [eos] * R)[:R] for _ in range(N)]
     hyps = [(draw(body) + [eos] * H)[:H] for _ in range(N)]
